@@ -211,10 +211,15 @@ pub fn generate(seed: u64, tier: Tier) -> Case {
                 match rng.below(4) {
                     0 => {
                         // Stale file exactly where this build will write.
+                        // ... short, or much longer than anything this build will write.
                         let path = rng.pick(&outs).clone();
+                        let lines = if rng.chance(1, 2) { 1 } else { rng.range(200, 3000) };
+                        let text: String = (0..lines)
+                            .map(|l| format!("pub struct Stale{k}_{l};\n"))
+                            .collect();
                         world.pre_out.push(Node::File {
                             path,
-                            content: Blob::text(format!("// stale output {k}\npub struct Stale{k};\n")),
+                            content: Blob::text(format!("// stale output {k}\n{text}")),
                         });
                         params.notes.push("env:stale_file_at_output_path".into());
                     }
